@@ -3,7 +3,7 @@
 # default srcdir: /tmp/r3/<Cxx>/out/<mN>; result in /tmp/seedv/<Cxx>-<mN>.result
 set -u
 ID=$1; M=$2
-SRC=${3:-${SEED_ROOT:-/tmp/r5}/$ID/out/$M}
+SRC=${3:-${SEED_ROOT:-/tmp/r7}/$ID/out/$M}
 WT=/tmp/seedv/$ID-$M
 OUT=/tmp/seedv/$ID-$M.result
 mkdir -p /tmp/seedv
